@@ -103,6 +103,8 @@ pub enum Ev {
     SetWall { secs: i64, nanos: u32, kind: u8 },
     /// DST / zone change: local time jumps, UTC does not
     Offset { secs: i32 },
+    /// the same, taking effect after `reads` more readings (between two readings of one call)
+    OffsetAfter { reads: u32, secs: i32 },
     /// the next `reads` readings use the leap-second representation (when the instant allows it)
     Leap { reads: u32 },
     /// the next `reads` readings return the identical instant
@@ -268,6 +270,7 @@ impl Script {
                     json!({"ev": "set_wall", "utc_secs": secs, "nanos": nanos, "kind": kind})
                 }
                 Ev::Offset { secs } => json!({"ev": "offset", "secs": secs}),
+                Ev::OffsetAfter { reads, secs } => json!({"ev": "offset_after_reads", "reads": reads, "secs": secs}),
                 Ev::Leap { reads } => json!({"ev": "leap", "reads": reads}),
                 Ev::Stall { reads } => json!({"ev": "stall", "reads": reads}),
                 Ev::Op(op) => op_to_json(op),
@@ -296,6 +299,10 @@ impl Script {
                     kind: e["kind"].as_u64().unwrap_or(1) as u8,
                 },
                 "offset" => Ev::Offset {
+                    secs: e["secs"].as_i64().ok_or("secs")? as i32,
+                },
+                "offset_after_reads" => Ev::OffsetAfter {
+                    reads: e["reads"].as_u64().ok_or("reads")? as u32,
                     secs: e["secs"].as_i64().ok_or("secs")? as i32,
                 },
                 "leap" => Ev::Leap {
